@@ -745,6 +745,11 @@ func (node *Node) AsSliceI32(ctx *Context, vp unsafe.Pointer) error {
 	var gerr error
 	for i := 0; i < size; i++ {
 		val := NewNode(next)
+		if val.IsNull() {
+			/* null leaves the element as it is, like any other integer destination */
+			next = PtrOffset(val.cptr, 1)
+			continue
+		}
 		ret, ok := val.AsI64(ctx)
 		if !ok || ret > math.MaxInt32 || ret < math.MinInt32 {
 			if gerr == nil {
@@ -774,6 +779,11 @@ func (node *Node) AsSliceI64(ctx *Context, vp unsafe.Pointer) error {
 	var gerr error
 	for i := 0; i < size; i++ {
 		val := NewNode(next)
+		if val.IsNull() {
+			/* null leaves the element as it is, like any other integer destination */
+			next = PtrOffset(val.cptr, 1)
+			continue
+		}
 
 		ret, ok := val.AsI64(ctx)
 		if !ok {
@@ -804,6 +814,11 @@ func (node *Node) AsSliceU32(ctx *Context, vp unsafe.Pointer) error {
 	var gerr error
 	for i := 0; i < size; i++ {
 		val := NewNode(next)
+		if val.IsNull() {
+			/* null leaves the element as it is, like any other integer destination */
+			next = PtrOffset(val.cptr, 1)
+			continue
+		}
 		ret, ok := val.AsU64(ctx)
 		if !ok || ret > math.MaxUint32 {
 			if gerr == nil {
@@ -833,6 +848,11 @@ func (node *Node) AsSliceU64(ctx *Context, vp unsafe.Pointer) error {
 	var gerr error
 	for i := 0; i < size; i++ {
 		val := NewNode(next)
+		if val.IsNull() {
+			/* null leaves the element as it is, like any other integer destination */
+			next = PtrOffset(val.cptr, 1)
+			continue
+		}
 		ret, ok := val.AsU64(ctx)
 		if !ok {
 			if gerr == nil {
